@@ -210,9 +210,15 @@ func runC08(p *Program, r *Result) {
 		for _, fs := range p.fieldStores(pkgArmor+".armoredReader", "started") {
 			facts := p.TB(fs.Fn).FactsAt(fs.Store.Block())
 			_, ok := findFact(facts, func(a Atom) bool {
-				return a.Kind == "cmp" && a.Op == "==" && a.Y.S == specConst(r, "armor.Header")
+				if !(a.Kind == "cmp" && a.Op == "==" && a.Y.S == specConst(r, "armor.Header")) {
+					return false
+				}
+				// the line as it was read (end-of-line marker removed), not a trimmed or otherwise
+				// normalised copy: blanks around the marker are not among the tolerances
+				x := a.X.String()
+				return !strings.Contains(x, "TrimSpace") && !strings.Contains(x, "Trim(") && !strings.Contains(x, "TrimLeft") && !strings.Contains(x, "TrimRight") && !strings.Contains(x, "Fields") && !strings.Contains(x, "ToLower") && !strings.Contains(x, "ToUpper")
 			})
-			r.Check(ok, fs.Fn.String(), "header:exact", r.pos(fs.Store), "started only when the line equals the header constant", "the reader starts on a line that is not compared with the exact header")
+			r.Check(ok, fs.Fn.String(), "header:exact", r.pos(fs.Store), "started only when the line equals the header constant", "the reader starts on a line that is not compared, as read, with the exact header (a trimmed or case-folded copy admits other spellings of the BEGIN line)")
 		}
 		// a short line must be followed by exactly the footer
 		okShort := false
